@@ -55,17 +55,25 @@ SelectsStopCh == CodeShape # "pre-ada0bc0"                    \* ada0bc0
 FFCtxFix == CodeShape \in {"current", "pre-af9523f"}          \* 6258232
 SDWaitFix == CodeShape \in {"current", "pre-6258232"}         \* af9523f
 
+(* the initial state as a record (Trace_BSPImpl.tla re-installs it between the scenarios of one trace file) *)
+I0 == [queue |-> <<>>, batch |-> <<>>, mutex |-> "none", dropped |-> 0, stopped |-> FALSE, stopCh |-> FALSE,
+       flushed |-> [f \in Flushers |-> FALSE],
+       pc |-> [x \in Procs |-> IF x = "w" THEN "select" ELSE "idle"],
+       pidx |-> [p \in Producers |-> 1], wret |-> "select", wtmp |-> <<>>,
+       hx |-> [f \in Flushers |-> "none"], hres |-> [f \in Flushers |-> ""], hs |-> "none",
+       expired |-> {}, err |-> [c \in Callers |-> ""],
+       mon |-> [inflight |-> <<>>, handed |-> [id \in Ids |-> 0], droppedIds |-> {}, ignoredIds |-> {}, abandonedIds |-> {},
+                returnedEnd |-> {}, raced |-> {}, snapF |-> [f \in Flushers |-> {}], snapS |-> [s \in Stoppers |-> {}],
+                sdCalled |-> FALSE, shutRet |-> FALSE, nilRet |-> {}, sdRetErr |-> FALSE, expShut |-> FALSE,
+                early |-> [f \in Flushers |-> FALSE], nomarker |-> [f \in Flushers |-> FALSE], bad |-> {}]]
 Init ==
-  /\ queue = <<>> /\ batch = <<>> /\ mutex = "none" /\ dropped = 0
-  /\ stopped = FALSE /\ stopCh = FALSE /\ flushed = [f \in Flushers |-> FALSE]
-  /\ pc = [x \in Procs |-> IF x = "w" THEN "select" ELSE "idle"]
-  /\ pidx = [p \in Producers |-> 1] /\ wret = "select" /\ wtmp = <<>>
-  /\ hx = [f \in Flushers |-> "none"] /\ hres = [f \in Flushers |-> ""] /\ hs = "none"
-  /\ expired = {} /\ err = [c \in Callers |-> ""]
-  /\ mon = [inflight |-> <<>>, handed |-> [id \in Ids |-> 0], droppedIds |-> {}, ignoredIds |-> {}, abandonedIds |-> {},
-            returnedEnd |-> {}, raced |-> {}, snapF |-> [f \in Flushers |-> {}], snapS |-> [s \in Stoppers |-> {}],
-            sdCalled |-> FALSE, shutRet |-> FALSE, nilRet |-> {}, sdRetErr |-> FALSE, expShut |-> FALSE,
-            early |-> [f \in Flushers |-> FALSE], nomarker |-> [f \in Flushers |-> FALSE], bad |-> {}]
+  /\ queue = I0.queue /\ batch = I0.batch /\ mutex = I0.mutex /\ dropped = I0.dropped
+  /\ stopped = I0.stopped /\ stopCh = I0.stopCh /\ flushed = I0.flushed
+  /\ pc = I0.pc
+  /\ pidx = I0.pidx /\ wret = I0.wret /\ wtmp = I0.wtmp
+  /\ hx = I0.hx /\ hres = I0.hres /\ hs = I0.hs
+  /\ expired = I0.expired /\ err = I0.err
+  /\ mon = I0.mon
 
 Go(x, l) == pc' = [pc EXCEPT ![x] = l]
 
@@ -218,10 +226,16 @@ FRet(f) == /\ pc[f] = "ret" /\ Go(f, "done")
 (* sync.Once: the first caller runs the body, later callers wait until the body has returned and then *)
 (* return nil (their own ctx is never looked at).  The body sets the flag, starts the helper goroutine *)
 (* and waits for it or for ctx.Done().                                                                 *)
+(* The call begins (SCall: what the caller has seen so far is its snapshot), THEN it reaches sync.Once (SOnce): *)
+(* the caller that gets there first runs the body -- not necessarily the one whose call began first (observed   *)
+(* on the real code by the implementation-level trace validation: `bsp.sd.stopped` passed by a later caller).  *)
 SCall(s) == /\ pc[s] = "idle"
             /\ mon' = [mon EXCEPT !.snapS[s] = mon.returnedEnd, !.sdCalled = TRUE]
-            /\ Go(s, IF \E o \in Stoppers : pc[o] \notin {"idle", "oncewait"} THEN "oncewait" ELSE "set")
+            /\ Go(s, "once")
             /\ UNCHANGED proto
+SOnce(s) == /\ pc[s] = "once"
+            /\ Go(s, IF \E o \in Stoppers : pc[o] \notin {"idle", "once", "oncewait"} THEN "oncewait" ELSE "set")
+            /\ UNCHANGED <<proto, mon>>
 SSet(s) == /\ pc[s] = "set" /\ stopped' = TRUE /\ Go(s, "waitdone") /\ hs' = "close"
            /\ UNCHANGED <<queue, batch, mutex, dropped, stopCh, flushed, pidx, wret, wtmp, hx, hres, expired, err, mon>>
 HClose == /\ hs = "close" /\ stopCh' = TRUE /\ hs' = "wait"
@@ -236,7 +250,7 @@ SCtx(s) == /\ pc[s] = "waitdone" /\ s \in expired /\ Go(s, "ret") /\ err' = [err
 (* Before: the body itself waited (SWait / SCtx by the first caller), later callers returned nil as soon  *)
 (* as the body had returned.                                                                              *)
 SOnceWait(s) == /\ pc[s] = "oncewait"
-                /\ IF SDWaitFix THEN (\E o \in Stoppers : pc[o] \notin {"idle", "set", "oncewait"}) /\ Go(s, "waitdone")
+                /\ IF SDWaitFix THEN (\E o \in Stoppers : pc[o] \notin {"idle", "once", "set", "oncewait"}) /\ Go(s, "waitdone")
                                ELSE (\E o \in Stoppers : pc[o] \in {"ret", "done"}) /\ Go(s, "ret")
                 /\ UNCHANGED <<proto, mon>>
 SRet(s) == /\ pc[s] = "ret" /\ Go(s, "done")
@@ -260,7 +274,7 @@ Next == \/ \E p \in Producers : PCall(p) \/ PCheck(p) \/ PEnq(p) \/ PRet(p)
         \/ WStop \/ WTimer \/ WDeq \/ WAppend \/ WDrainEmpty \/ WExpLock \/ (\E o \in Outcomes : WExpEnd(o))
         \/ \E f \in Flushers : FCall(f) \/ FCheck(f) \/ FEnq(f) \/ FWaitStop(f) \/ FWaitFlushed(f) \/ FWaitCtx(f)
                                \/ HExpLock(f) \/ (\E o \in Outcomes : HExpEnd(f, o)) \/ FExpDone(f) \/ FExpCtx(f) \/ FRet(f)
-        \/ \E s \in Stoppers : SCall(s) \/ SSet(s) \/ SWait(s) \/ SCtx(s) \/ SOnceWait(s) \/ SRet(s)
+        \/ \E s \in Stoppers : SCall(s) \/ SOnce(s) \/ SSet(s) \/ SWait(s) \/ SCtx(s) \/ SOnceWait(s) \/ SRet(s)
         \/ HClose \/ HWait
         \/ \E c \in Callers : CtxExpire(c)
 
@@ -269,7 +283,7 @@ Fairness == /\ WF_vars(WStop \/ WDeq \/ WAppend \/ WDrainEmpty \/ WExpLock \/ (\
             /\ \A f \in Flushers : WF_vars(FCheck(f) \/ FEnq(f) \/ FWaitStop(f) \/ FWaitFlushed(f) \/ FWaitCtx(f)
                                            \/ FExpDone(f) \/ FExpCtx(f) \/ FRet(f))
             /\ \A f \in Flushers : WF_vars(HExpLock(f) \/ (\E o \in Outcomes : HExpEnd(f, o)))
-            /\ \A s \in Stoppers : WF_vars(SSet(s) \/ SWait(s) \/ SCtx(s) \/ SOnceWait(s) \/ SRet(s))
+            /\ \A s \in Stoppers : WF_vars(SOnce(s) \/ SSet(s) \/ SWait(s) \/ SCtx(s) \/ SOnceWait(s) \/ SRet(s))
             /\ WF_vars(HClose \/ HWait)
 Spec == Init /\ [][Next]_vars
 FairSpec == Spec /\ Fairness
@@ -317,6 +331,6 @@ Stuck == (~ENABLED Next) => AllDone
 Termination == /\ \A p \in Producers : (pc[p] = "check") ~> (pc[p] = "idle")
                /\ \A f \in Flushers : (pc[f] = "check") ~> (pc[f] = "done")
                /\ \A f \in Flushers : (hx[f] = "lock") ~> (hx[f] = "done")
-               /\ \A s \in Stoppers : (pc[s] \in {"set", "oncewait"}) ~> (pc[s] = "done")
+               /\ \A s \in Stoppers : (pc[s] \in {"once", "set", "oncewait"}) ~> (pc[s] = "done")
                /\ (hs = "close") ~> (hs = "done")
 =============================================================================
